@@ -9,6 +9,7 @@ import ast
 
 from sa import dataflow as df
 from sa.resolver import Resolver
+from sa.termutil import guard_hyps, kind_def
 from sa.term import H, I, INV, MUL, SCAL, T, VAR, TermEval, alternatives, equal, expand, has_opaque, norm, opaque_text, show, sym
 
 FAM = {"Kronecker": "kron", "BlockDiag": "bdiag"}
@@ -62,7 +63,13 @@ def run(idx, rep, tier):
                 rep.decide(ok, "structural-factor", rule.role, f"returns {show(norm(t))}; required the same {kinds[0]} structure of the factors' Cholesky factors, in order" +
                            (" with the multiplicities" if kinds[0] == "BlockDiag" else ""), detail="" if ok else "structure", locs=[loc])
             else:
-                rep.undecided("structural-factor", rule.role, "no oracle entry for this kind", locs=[loc])
+                # a kind without a tabulated factor: L·H(L) must be the operand (necessary; lower-triangularity of L is not decided)
+                kd = kind_def(idx, kinds[0], a) if len(kinds) == 1 else None
+                defs = {sym(a): kd} if kd is not None else {}
+                hyp = frozenset(set(guard_hyps(idx, fi, r)) | {("herm", sym(a))})
+                ok = equal(MUL(t, H(t)), sym(a), hyp, defs)
+                rep.decide(ok, "structural-factor", rule.role, f"returns L = {show(norm(t))}; L·H(L) = {show(norm(expand(MUL(t, H(t)), defs), hyp))}, the operand {show(norm(expand(sym(a), defs), hyp))}",
+                           detail="" if ok else "product", locs=[loc])
     # ------------------------------------------------------------ plu
     rules = res.rules_of("plu")
     if not rules:
@@ -108,7 +115,14 @@ def run(idx, rep, tier):
                     rep.decide(ok, "plu-roles", rule.role, f"returns ({', '.join(show(norm(c)) for c in comps)}); component i must be the {kinds[0]} of the factors' i-th plu component, in order"
                                + (" with the multiplicities" if kinds[0] == "BlockDiag" else ""), detail="" if ok else "roles", locs=[loc])
                 else:
-                    rep.undecided("plu-roles", rule.role, "no oracle entry for this kind", locs=[loc])
+                    # a kind without a tabulated factorisation: the three factors must at least multiply back to the operand
+                    # (necessary; that L / U are lower / upper triangular is not decided for such a rule)
+                    kd = kind_def(idx, kinds[0], a) if len(kinds) == 1 else None
+                    defs = {sym(a): kd} if kd is not None else {}
+                    hyp = guard_hyps(idx, fi, r)
+                    ok = equal(MUL(*comps), sym(a), hyp, defs)
+                    rep.decide(ok, "plu-roles", rule.role, f"returns ({', '.join(show(norm(c)) for c in comps)}); the product of the factors is {show(norm(expand(MUL(*comps), defs), hyp))}, "
+                               f"the operand {show(norm(expand(sym(a), defs), hyp))}", detail="" if ok else "product", locs=[loc])
     # Cholesky / LU algorithm objects call the functions
     for cname, fname in (("Cholesky", "cholesky"), ("LU", "plu")):
         if idx.has_cls(cname):
